@@ -225,9 +225,9 @@ func c15Specs(quick bool) []*SeqSpec {
 		vd(protocol.NewLockCommandDataSetString("xy")),
 		vd(protocol.NewLockCommandDataIncrDataWithProperty(3, props)),
 		vd(protocol.NewLockCommandDataIncrData(2)),
-		rawIncr(0x01, nil, 5, 0, 0, 0),                         // 4-byte operand
-		rawIncr(0x11, ph, 5, 0, 0, 0),                          // 4-byte operand behind a property header
-		rawIncr(0x01, nil, 1, 0, 0, 0, 0, 0, 0, 0, 9, 9),       // 10-byte operand
+		rawIncr(0x01, nil, 5, 0, 0, 0),                   // 4-byte operand
+		rawIncr(0x11, ph, 5, 0, 0, 0),                    // 4-byte operand behind a property header
+		rawIncr(0x01, nil, 1, 0, 0, 0, 0, 0, 0, 0, 9, 9), // 10-byte operand
 		vd(protocol.NewLockCommandDataAppendStringWithProperty("q", props)),
 		vd(protocol.NewLockCommandDataShiftData(1)),
 	} {
